@@ -30,6 +30,7 @@ import (
 	"github.com/anishathalye/porcupine"
 
 	"github.com/Comcast/sheens/core"
+	"github.com/Comcast/sheens/crew"
 	"github.com/Comcast/sheens/match"
 
 	"verif/fw"
@@ -38,6 +39,9 @@ import (
 const c16CounterSpec = `name: counter
 doc: Counts the messages it is presented with.
 patternsyntax: json
+paramspecs:
+  greeting:
+    default: hi
 nodes:
   start:
     branching:
@@ -322,13 +326,16 @@ func (e *c16env) applyViaListener(o c16op) (result string, err error) {
 		line = js(map[string]interface{}{"cop": map[string]interface{}{"add": map[string]interface{}{"m": map[string]interface{}{
 			"id": o.Id, "spec": map[string]interface{}{"name": "counter"},
 			"state": map[string]interface{}{"node": "start", "bs": map[string]interface{}{"inc": float64(inc), "n": 0.0, "self": o.Id}}}}}})
+	case "addbare":
+		line = js(map[string]interface{}{"cop": map[string]interface{}{"add": map[string]interface{}{"m": map[string]interface{}{
+			"id": o.Id, "spec": map[string]interface{}{"name": "counter"}, "state": map[string]interface{}{"node": "start"}}}}})
 	case "rem":
 		line = js(map[string]interface{}{"cop": map[string]interface{}{"rem": map[string]interface{}{"id": o.Id}}})
-	case "to", "all", "poison", "poisonrelay":
+	case "to", "all", "poison", "poisonrelay", "to-limited":
 		uid := fmt.Sprintf("u%d", atomic.AddInt64(&e.uidN, 1))
 		msg := map[string]interface{}{"uid": uid}
 		switch o.Kind {
-		case "to":
+		case "to", "to-limited":
 			msg["to"] = o.Id
 		case "poison":
 			msg["d"] = 0.0
@@ -339,7 +346,12 @@ func (e *c16env) applyViaListener(o c16op) (result string, err error) {
 			msg["only"] = o.Id
 			msg["relay"] = map[string]string{"m1": "m2", "m2": "m3", "m3": "m1"}[o.Id]
 		}
-		line = js(map[string]interface{}{"cop": map[string]interface{}{"process": map[string]interface{}{"message": msg}}})
+		proc := map[string]interface{}{"message": msg}
+		if o.Kind == "to-limited" {
+			// the request's own step limit ends the walk in the middle of the machine's work
+			proc["ctl"] = map[string]interface{}{"limit": 1}
+		}
+		line = js(map[string]interface{}{"cop": map[string]interface{}{"process": proc}})
 	case "get":
 		line = js(map[string]interface{}{"getCrew": map[string]interface{}{}})
 	default:
@@ -405,6 +417,18 @@ func (e *c16env) apply(o c16op) (result string, err error) {
 			return "again process", err
 		}
 		return "again: nothing to repeat", nil
+	case "addbare":
+		// an add request that gives a node and no bindings (the spec has a parameter with
+		// a default, which the operation fills in)
+		e.last = c16last{kind: "addbare"}
+		op := &OpAdd{Machine: &crew.Machine{Id: o.Id, SpecSource: &crew.SpecSource{Name: "counter"}, State: &core.State{NodeName: "start"}}}
+		if err = op.Do(e.ctx, e.s); err == nil {
+			err = op.Error
+		}
+		if err == nil {
+			return "added without bindings", nil
+		}
+		return "addbare: " + err.Error(), err
 	case "add":
 		inc := atomic.AddInt64(&e.incN, 1)
 		e.last = c16last{kind: "add", id: o.Id, inc: float64(inc)}
@@ -419,15 +443,21 @@ func (e *c16env) apply(o c16op) (result string, err error) {
 			return "removed", nil
 		}
 		return "rem: " + err.Error(), err
-	case "to", "all":
+	case "to", "all", "to-limited":
 		uid := fmt.Sprintf("u%d", atomic.AddInt64(&e.uidN, 1))
 		e.last = c16last{kind: o.Kind, id: o.Id, uid: uid}
 		msg := map[string]interface{}{"uid": uid}
-		if o.Kind == "to" {
+		if o.Kind != "all" {
 			msg["to"] = o.Id
 		}
+		var ctl *core.Control
+		if o.Kind == "to-limited" {
+			// the request's own step limit ends the walk in the middle of the machine's work
+			ctl = &core.Control{Limit: 1}
+			e.last = c16last{kind: "limited"}
+		}
 		var ws map[string]*core.Walked
-		ws, err = e.s.Process(e.ctx, msg, nil)
+		ws, err = e.s.Process(e.ctx, msg, ctl)
 		if err != nil {
 			return "process: " + err.Error(), err
 		}
@@ -495,7 +525,11 @@ func genC16Seq(r *rand.Rand, n int) []c16op {
 		case k == 8:
 			seq = append(seq, c16op{"all", ""})
 		default:
-			switch r.Intn(4) {
+			switch r.Intn(6) {
+			case 4:
+				seq = append(seq, c16op{"to-limited", id})
+			case 5:
+				seq = append(seq, c16op{"addbare", id})
 			case 0:
 				seq = append(seq, c16op{"poisonrelay", id})
 			case 1:
@@ -663,6 +697,12 @@ func c16SequentialMid(cfg fw.Config, rec *fw.Rec, seqIdx int, seq []c16op, fi, f
 				return false
 			}
 			rec.Bucket("healthy_op_memory_equals_store")
+			if o.Kind == "addbare" {
+				rec.Bucket("add_requests_without_bindings")
+			}
+			if o.Kind == "to-limited" {
+				rec.Bucket("process_requests_with_a_step_limit_of_their_own")
+			}
 			if strings.HasSuffix(o.Kind, "-cancelled") {
 				rec.Bucket("request_under_cancelled_context_memory_equals_store")
 			}
@@ -915,7 +955,7 @@ func c16Concurrent(cfg fw.Config, rec *fw.Rec, idx int, interleavings map[string
 func init() {
 	verifRegistry["C16/mcrew"] = func(cfg fw.Config, rec *fw.Rec) {
 		rec.Rule = "sequential (every second sequence as JSON request lines through Service.Listener, the per-connection loop of the TCP / WebSocket services; the others as direct Service calls): operation sequences of length 2-8 over {add, rem, process-to, process-all, read-crew, retry-the-previous-request-verbatim, the same requests under an already cancelled context} on ids {m1,m2,m3}; for every 0 <= i < j <= n the bolt store is closed for operations i..j-1 (plus the fault-free run); for every fourth sequence the fault is instead injected at the commit of a transaction only (the database file's descriptor is swapped for a read-only one: begin, get and put work, commit fails); after each operation with a healthy store memory must equal the store, an operation whose write failed must leave memory as it was, after recovery memory must equal the store; a 'poison' request to every machine leaves one machine with a state the store cannot serialise (100/0), so the request's write fails although the store is healthy: memory must stay as it was for every machine and equal the store - also when the failing machine's action emitted a message to another machine ('poisonrelay'); mid-operation faults: the hook counts an operation's store write calls and closes the database at the 1st/2nd/3rd call of that operation (the observed maximum of write calls per operation is reported); concurrent: 4-8 clients x 6-15 requests on 2-3 ids with every store write delayed 0-2 ms through the verifPoint hook: final memory == store, no two process results from one machine state, per-machine history linearizable (porcupine) w.r.t. a sequential service model; non-trivial = sequence run under a fault window / concurrent history; distinct by (sequence, window) / history"
-		rec.Required = []string{"healthy_op_memory_equals_store", "failed_write_left_memory_unchanged", "recovered_store_agrees", "concurrent_histories", "histories_linearizable_per_machine", "fault_windows", "failed_commit_left_memory_unchanged", "requests_over_the_line_protocol", "request_under_cancelled_context_memory_equals_store", "unserialisable_state_left_memory_unchanged", "unserialisable_state_in_multi_machine_request", "failed_request_that_emitted_left_the_others_alone", "mid_operation_fault_injected"}
+		rec.Required = []string{"add_requests_without_bindings", "process_requests_with_a_step_limit_of_their_own", "healthy_op_memory_equals_store", "failed_write_left_memory_unchanged", "recovered_store_agrees", "concurrent_histories", "histories_linearizable_per_machine", "fault_windows", "failed_commit_left_memory_unchanged", "requests_over_the_line_protocol", "request_under_cancelled_context_memory_equals_store", "unserialisable_state_left_memory_unchanged", "unserialisable_state_in_multi_machine_request", "failed_request_that_emitted_left_the_others_alone", "mid_operation_fault_injected"}
 		rec.Assume = []string{"store faults are injected by closing the bolt database (every write and read fails until it is reopened); commits do not fsync (NoSync) because durability is not monitored", "machines are counters with a unique incarnation tag, so every state of every incarnation is distinguishable", "porcupine timeout 60 s = inconclusive"}
 		// sequential fault enumeration
 		nseq := cfg.Pick(40, 800)
@@ -937,6 +977,14 @@ func init() {
 			}
 			if i == 4 {
 				seq = []c16op{{"add", "m1"}, {"add", "m2"}, {"add", "m3"}, {"poisonrelay", "m1"}, {"all", ""}, {"poisonrelay", "m3"}, {"to", "m2"}, {"poisonrelay", "m2"}, {"get", ""}}
+			}
+			if i == 3 || i == 6 {
+				seq = []c16op{{"addbare", "m1"}, {"to", "m1"}, {"add", "m2"}, {"addbare", "m2"}, {"all", ""}, {"rem", "m1"}, {"addbare", "m1"}, {"get", ""}}
+				n = len(seq)
+			}
+			if i == 7 || i == 8 {
+				seq = []c16op{{"add", "m1"}, {"add", "m2"}, {"to-limited", "m1"}, {"get", ""}, {"to", "m1"}, {"all", ""}, {"to-limited", "m2"}, {"to-limited", "m2"}, {"all", ""}}
+				n = len(seq)
 			}
 			if i == 2 {
 				seq = []c16op{{"add", "m1"}, {"to-cancelled", "m1"}, {"to", "m1"}, {"add-cancelled", "m2"}, {"all-cancelled", ""}, {"rem-cancelled", "m1"}, {"all", ""}}
